@@ -248,6 +248,10 @@ class WritableVersion(dns.zone.WritableVersion):
         """Set or clear the ``NodeFlags.GLUE`` flag on all nodes that are
         subdomains of *name*.
 
+        Setting also removes delegation points nested beneath *name* from the
+        delegations index; clearing turns the NS owners nearest to *name* in its
+        subtree into delegation points (with their own subtrees staying glue).
+
         :param name: The delegation-point name whose subtree should be updated.
         :type name: :py:class:`dns.name.Name`
         :param is_glue: ``True`` to set the GLUE flag; ``False`` to clear it.
@@ -256,6 +260,8 @@ class WritableVersion(dns.zone.WritableVersion):
         cursor = self.nodes.cursor()  # pyright: ignore
         cursor.seek(name, False)
         updates = []
+        # When clearing, the most recently exposed delegation point in the subtree.
+        exposed: dns.name.Name | None = None
         while True:
             elt = cursor.next()
             if elt is None:
@@ -272,9 +278,20 @@ class WritableVersion(dns.zone.WritableVersion):
                 node = new_node
             assert isinstance(node, Node)
             if is_glue:
-                node.flags |= NodeFlags.GLUE
+                # A delegation point beneath the new one is occluded by it.
+                self.delegations.discard(ename)
+                node.flags = NodeFlags.GLUE
+            elif exposed is not None and ename.is_subdomain(exposed):
+                node.flags = NodeFlags.GLUE
+            elif (
+                node.get_rdataset(self.zone.rdclass, dns.rdatatype.NS) is not None
+            ):
+                # An NS owner that was occluded by *name* is a delegation point now.
+                node.flags = NodeFlags.DELEGATION
+                self.delegations.add(ename)
+                exposed = ename
             else:
-                node.flags &= ~NodeFlags.GLUE
+                node.flags = NodeFlags(0)
             # We don't update node here as any insertion could disturb the
             # btree and invalidate our cursor.  We could use the cursor in a
             # with block and avoid this, but it would do a lot of parking and
